@@ -25,7 +25,7 @@ ASSUMPTIONS = ["exception *types* are compared, not messages (they mention <lamb
 EXHAUSTIVE = {"quick": True, "thorough": True}
 FLOOR = {"quick": 3000, "thorough": 20000}
 MONITORS = False
-VARIANTS = ["plain", "annotated", "method", "nested", "deco1", "deco2", "closure-default"]
+VARIANTS = ["plain", "annotated", "method", "nested", "deco1", "deco2", "closure-default", "closure-local-default", "class-attr-default"]
 
 
 def shapes():
@@ -43,7 +43,7 @@ def render(shape, variant):
     parts = []
     for i, n in enumerate(pos):
         d = '=d("%s")' % n if i >= len(pos) - nd else ""
-        if variant == "closure-default" and d:
+        if variant in ("closure-default", "closure-local-default", "class-attr-default") and d:
             d = "=cap + d(\"%s\")" % n
         parts.append(n + (": int" if ann else "") + (" " + d.replace("=", "= ", 1) if ann and d else d))
         if i == po - 1:
@@ -55,6 +55,8 @@ def render(shape, variant):
     kos = []
     for i in range(ko):
         d = '=d("k%d")' % i if kmask >> i & 1 else ""
+        if variant in ("closure-default", "closure-local-default", "class-attr-default") and d:
+            d = '=cap + d("k%d")' % i
         kos.append("k%d" % i)
         parts.append("k%d" % i + (": 'str'" if ann else "") + (" " + d.replace("=", "= ", 1) if ann and d else d))
     if kw:
@@ -78,6 +80,14 @@ def render(shape, variant):
     elif variant == "closure-default":
         L += ["def outer(cap):", "    def f(%s):" % ", ".join(parts), "        return " + ret,
               "    def g():", "        return cap", "    return f", "f = outer('c:')"]
+    elif variant == "closure-local-default":
+        # the defaults read a *local* of the defining function that another inner function captures and rebinds
+        L += ["def outer():", "    cap = 'c:'", "    def g():", "        nonlocal cap", "        cap = cap + 'x'", "        return cap", "    g()",
+              "    def f(%s):" % ", ".join(parts), "        return " + ret, "    g()", "    return f", "f = outer()"]
+    elif variant == "class-attr-default":
+        # the defaults read an attribute of the defining class body
+        L += ["class K:", "    cap = 'k:'", "    def m(%s):" % ", ".join(["self"] + parts), "        return " + ret,
+              "    cap = 'later'", "f = K().m"]
     return "\n".join(L) + "\n", pos, kos
 
 
